@@ -42,6 +42,8 @@ type traceOutput struct {
 	Events     int        `json:"events"`
 	DataRsps   int        `json:"data_rsps"`
 	Timeouts   int        `json:"timeouts"`
+	Stalls     int        `json:"stalls"`      // requester stalls (back-pressure runs)
+	FullAtAck  int        `json:"full_at_ack"` // successful pause/drain/reset/invalidate/flush acks sent with the Top outgoing buffer full
 	Mismatches []Mismatch `json:"mismatches"`
 	Panics     []panicRec `json:"panics"`
 	Index      []runRec   `json:"index"`
@@ -96,6 +98,8 @@ func init() {
 				out.Runs++
 				out.Events += res.events
 				out.DataRsps += res.dataRsps
+				out.Stalls += res.stalls
+				out.FullAtAck += res.fullAtAck
 				if res.timedOut {
 					out.Timeouts++
 				}
